@@ -1,7 +1,7 @@
 from props_util import D
 
 E2_NOTE = ('Trusted: the harness seams of harness/daemon/hx.h (virtual clock, fake posix_spawn, in-memory spool, fixed passwd table, '
-           'socketpair clients, ev_feed_event for child exits) and the reference model in e2_explore.c (DESIGN.md appendix B).  '
+           'socketpair clients, ev_feed_event for child exits, from a check watcher of the highest priority when exit and expiry share an iteration) and the reference model in e2_explore.c (DESIGN.md appendix B).  '
            'Everything else is the unmodified echsd.c, libechse and the real static libev (select backend).')
 
 
@@ -11,7 +11,7 @@ def register(PROPS):
         'level': 'model_checking',
         'technique': 'explicit-state exploration of the real echsd (fork per transition, canonical-state deduplication) against a reference model',
         'claim': 'Every history up to the stated depth over {ADD/replace (5 schedule templates incl. all-in-the-past and straddling load time), '
-                 'CANCEL, TICK on-time / idle / late by 1-2 further occurrences, EXIT of any live job} with two UIDs is executed on the embedded '
+                 'CANCEL, TICK on-time / idle / late by 1-2 further occurrences, EXIT of any live job, an on-time TICK in whose very loop iteration the exit of a live job is noticed (child watcher invoked before the periodic, as libev does)} with two UIDs is executed on the embedded '
                  'daemon; after every event the spawns of that step (exactly one per task with a due occurrence, none otherwise, never the no-run '
                  'flag, SETUID = owner), the task table, libev\'s armed time and the remaining occurrences are compared with the model.  A second '
                  'run repeats this with 1.5 s of virtual time passing while a wake-up is handled (the deviation that exposes lost occurrences).',
@@ -41,17 +41,17 @@ def register(PROPS):
         'engine': 'E2',
         'level': 'model_checking',
         'technique': 'explicit-state exploration of the real echsd against a reference model of per-task concurrency limits',
-        'claim': 'Task X (MAX-SIMUL 1, 2 or unset) and task Y (unset or 1), both SECONDLY with six occurrences: every history up to the stated '
-                 'depth over {ADD/replace, CANCEL, TICK on-time/idle/late, a TICK during which the start of the one due task fails before a child exists (pipe() answers EMFILE, or posix_spawn() returns EAGAIN; the stack is filled with a fixed pattern first so that an uninitialised pid reads the same every time), EXIT of any live job (each job individually), STOP+CONT of a live job (which is still running afterwards)} is executed; a start must be for real '
+        'claim': 'Task X (MAX-SIMUL 1, 2, unset, or 0 with three occurrences) and task Y (unset or 1), both SECONDLY with six occurrences: every history up to the stated '
+                 'depth over {ADD/replace, CANCEL, TICK on-time/idle/late, a TICK during which the start of the one due task fails before a child exists (pipe() answers EMFILE, or posix_spawn() returns EAGAIN; the stack is filled with a fixed pattern first so that an uninitialised pid reads the same every time), EXIT of any live job (each job individually), TICK with the exit of a live job noticed in the same iteration, STOP+CONT of a live job (which is still running afterwards)} is executed; a start must be for real '
                  'iff fewer than N jobs of that task are alive, otherwise carry the no-run flag; every real job must be watched; the other task\'s '
-                 'starts are judged by its own limit only.  A linear sweep runs one fill / refuse / exit / run-again history for every N = 1..62, two histories in which a task WITHOUT a limit has 64 / 65 jobs running when it is cancelled and a limited task takes over while the old jobs exit, and three with a calendar-level limit (overridden by the event\'s own, or inherited).',
+                 'starts are judged by its own limit only; a task that has had its last occurrence and has nothing running must be gone, also when that last start failed or was reported as not run.  A linear sweep runs one fill / refuse / exit / run-again history for every N = 1..62, one with MAX-SIMUL:0 (four occurrences, all reported as not run, then the task must be gone), two histories in which a task WITHOUT a limit has 64 / 65 jobs running when it is cancelled and a limited task takes over while the old jobs exit, and three with a calendar-level limit (overridden by the event\'s own, or inherited).',
         'note': E2_NOTE + '  Real process lifetimes are replaced by explicit EXIT events; echsx\'s handling of the no-run flag is C13/C14 territory.',
         'rule': 'as C04: case = pair of first two events, subtree explored exhaustively; non-trivial = subtree holds >= 2 states',
         'bound': {'quick': 'depth 6; narrow alphabet (X with limit 2, Y with limit 1, ADD/replace, CANCEL, on-time TICK, EXIT of each job) depth 9', 'thorough': 'depth 8, narrow alphabet depth 11'},
         'counter_map': {'states': 'states', 'transitions': 'transitions', 'traces_validated_against_impl': 'traces'},
         'drivers': [
             D('e2_explore', ['prop=C12', 'depth=6', '--case-timeout', '60'], ['prop=C12', 'depth=8', '--case-timeout', '300'], label='depth'),
-            D('e2_explore', ['prop=C12', 'mode=sweep', '--case-timeout', '60'], label='sweep-N-1..62+unlimited+inherited'),
+            D('e2_explore', ['prop=C12', 'mode=sweep', '--case-timeout', '60'], label='sweep-N-0..62+unlimited+inherited'),
             D('e2_explore', ['prop=C12', 'depth=4', '--case-timeout', '60'], ['prop=C12', 'depth=5', '--case-timeout', '120'], label='asan', variant='asan'),
             D('e2_explore', ['prop=C12', 'uids=collide', 'depth=6', '--case-timeout', '120'], ['prop=C12', 'uids=collide', 'depth=7', '--case-timeout', '600'], label='colliding-uids'),
             D('e2_explore', ['prop=C12', 'alpha=narrow', 'depth=9', '--case-timeout', '120'], ['prop=C12', 'alpha=narrow', 'depth=11', '--case-timeout', '600'], label='narrow-deep'),
@@ -66,7 +66,7 @@ def register(PROPS):
                  '{ADD with owner field absent / = self / = other (as a number and as a user name) / a number that no user has, two instructions in one request, CANCEL (also of unknown and foreign UIDs), '
                  'GET /queue (own and another user\'s), GET /sched, TICK} is executed; the number and kind of REQUEST-STATUS replies, the task '
                  'table with owners, the bodies of the listings (no foreign or stale UID, own queued UIDs present) and the SETUID of every started '
-                 'job are compared with a map<UID, (owner, schedule)> model.  Linear "busy" histories reach what depth cannot: 17 acknowledged requests between two checkpoints (the 17th by the same or by another user) followed by the listing, and 300 (thorough also 1500) distinct UIDs of one user next to 3 of another in one daemon life - queue files and listings must hold exactly the submitted UIDs, every UID must be cancellable by its owner, nothing may be left; 40 clients connected at the same time (each has sent half of its request when the others send theirs) must each get the reply to their own request and have their task filed under their own uid; requests of 44 instructions (replies beyond 4096 octets) with the first UID growing by one character over 128 rounds must find the status line of every instruction in the reply.',
+                 'job are compared with a map<UID, (owner, schedule)> model.  A narrow alphabet (ADD of three UIDs and GET /queue, both peers) reaches depth 7 (thorough 9), once with peers 1000/1001 and once with 1000/2040 (uids whose highest bits differ: the index over the per-user change notes files them apart); the dirty list enters the canonical state as it is, order and repetitions included.  Linear "busy" histories reach what depth cannot: 17 acknowledged requests between two checkpoints (the 17th by the same or by another user) followed by the listing, and 300 (thorough also 1500) distinct UIDs of one user next to 3 of another in one daemon life - queue files and listings must hold exactly the submitted UIDs, every UID must be cancellable by its owner, nothing may be left; 40 clients connected at the same time (each has sent half of its request when the others send theirs) must each get the reply to their own request and have their task filed under their own uid; requests of 44 instructions (replies beyond 4096 octets) with the first UID growing by one character over 128 rounds must find the status line of every instruction in the reply.',
         'note': E2_NOTE + '  Task oids are 32-bit hashes of the UID; the multi-gigabyte table growth reachable with hashes that agree in 25+ low bits is outside the alphabet.',
         'rule': 'as C04',
         'bound': {'quick': 'depth 4', 'thorough': 'depth 5'},
@@ -74,6 +74,8 @@ def register(PROPS):
         'drivers': [
             D('e2_explore', ['prop=C11', 'depth=4', '--case-timeout', '120'], ['prop=C11', 'depth=5', '--case-timeout', '600'], label='depth'),
             D('e2_explore', ['prop=C11', 'depth=2', '--case-timeout', '120'], ['prop=C11', 'depth=3', '--case-timeout', '300'], label='asan', variant='asan'),
+            D('e2_explore', ['prop=C11', 'alpha=narrow', 'depth=7', '--case-timeout', '120'], ['prop=C11', 'alpha=narrow', 'depth=9', '--case-timeout', '600'], label='adds-and-listings'),
+            D('e2_explore', ['prop=C11', 'alpha=narrow', 'depth=7', 'user2=2040', '--case-timeout', '120'], ['prop=C11', 'alpha=narrow', 'depth=9', 'user2=2040', '--case-timeout', '600'], label='adds-and-listings-uids-1000+2040'),
             D('e2_explore', ['prop=C11', 'mode=busy', 'variants=6', 'skip=3', '--case-timeout', '120'], ['prop=C11', 'mode=busy', 'variants=6', '--case-timeout', '600'], label='busy', shards=6),
             D('e2_explore', ['prop=C11', 'mode=busy', 'variants=6', 'skip=3', '--case-timeout', '300'], label='busy-asan', variant='asan', shards=6),
         ],
